@@ -292,6 +292,22 @@ def o_reject(sim, op, spec, out):
     )
 
 
+def o_reject_db2(sim, op, spec, out):
+    """C05.loud on the SECOND database instance: a conversion between units that do not both belong
+    to the given quantity type IN THAT DATABASE must be refused, whatever the singleton knows."""
+    from .ops import OTHER_DB
+
+    db2 = OTHER_DB["db"]
+    if out[0] == "intr" or db2 is None:
+        return
+    t, frm, to = spec["t"], spec["frm"], spec["to"]
+    if frm == to or (db2.GetQuantityType(frm) == t and db2.GetQuantityType(to) == t):
+        sim.count("precondition_lapsed")
+        return
+    ok = out[0] == "exc" and isinstance(out[1], M.loud_classes())
+    sim.check(ok, spec["id"], {"why": "other_database", "api": _api(op), "got": out[0] if out[0] != "exc" else type(out[1]).__name__}, op["i"], lambda: "%s on the second database must be rejected, got %s %r" % (op["k"], out[0], out[1]))
+
+
 def _both_empty_lists(x, y):
     import barril.units as u
 
@@ -544,6 +560,7 @@ ORACLES = {
     "raises": o_raises,
     "raises_any": o_raises_any,
     "reject": o_reject,
+    "reject_db2": o_reject_db2,
     "changing_index": o_changing_index,
     "index_as_scalar": o_index_as_scalar,
     "curve_set": o_curve_set,
